@@ -688,6 +688,87 @@ func propC05Refs(c *Ctx) {
 				good = true
 			}
 		}
+		if okv == nil || errv == nil {
+			// the check and the registration in one function (resolve(ig, ref) error): once the reference is
+			// seen to name an integration, a nil return is reached only past an append to the Dependencies
+			// of the integration handed in – which is the configuration's, not a copy
+			if chk := regionCallee(call); chk != nil && isRepoFunc(chk) && chk.Signature.Results().Len() == 1 && isErrorType(chk.Signature.Results().At(0).Type()) {
+				fRefIg := w.Field("dig", "Ref", "Integration")
+				named, _ := cmpEdges(chk, func(b *ssa.BinOp) bool {
+					arg, ok := lenArg(b.X)
+					k, okc := constInt(b.Y)
+					if !ok || !okc || k != 0 || (b.Op != token.GTR && b.Op != token.NEQ) {
+						return false
+					}
+					_, ch := fieldChain(arg)
+					return len(ch) > 0 && ch[len(ch)-1] == fRefIg
+				})
+				var regs []*ssa.Store
+				igParam := -1
+				allInstrs(chk, func(in ssa.Instruction) {
+					st, isSt := in.(*ssa.Store)
+					if !isSt {
+						return
+					}
+					fd, stBase := fieldOf(st.Addr)
+					if fd != fDeps {
+						return
+					}
+					ap, isCall := stripConv(st.Val).(*ssa.Call)
+					if !isCall || calleeName(ap) != "builtin append" {
+						return
+					}
+					u, isU := stripConv(ap.Call.Args[0]).(*ssa.UnOp)
+					if !isU || u.Op != token.MUL {
+						return
+					}
+					fa, isFA := u.X.(*ssa.FieldAddr)
+					if !isFA {
+						return
+					}
+					if fd2, base := fieldOf(fa); fd2 != fDeps || !sameAddr(base, stBase) {
+						return
+					}
+					if p, isP := stripConv(stBase).(*ssa.Parameter); isP && p.Parent() == chk {
+						igParam = paramIndexOf(p)
+						regs = append(regs, st)
+					}
+				})
+				switch {
+				case len(named) == 0:
+					detail = "the function that receives the reference never tests whether it names an integration"
+				case len(regs) == 0:
+					detail = "no append to the Dependencies of the integration handed in"
+				default:
+					cuts := newCuts()
+					for _, st := range regs {
+						cuts.addInstr(st)
+					}
+					escape := false
+					for _, e := range named {
+						if hit, _ := reach(Site{e.To, -1}, func(in ssa.Instruction) bool {
+							r, isR := in.(*ssa.Return)
+							return isR && isNilConst(returnValues(r)[0])
+						}, cuts); hit {
+							escape = true
+						}
+					}
+					argOK := igParam >= 0 && igParam < len(call.Call.Args)
+					if argOK {
+						if root := accessPath(call.Call.Args[igParam]).Root; isLocalAlloc(root) {
+							if _, isStruct := root.Type().Underlying().(*types.Pointer).Elem().Underlying().(*types.Struct); isStruct {
+								argOK = false
+								detail = "the dependency is appended to a local copy of the integration: the configuration never sees it"
+							}
+						}
+					}
+					if escape {
+						detail = "a reference that names an integration can be passed (nil error) without the dependency being appended"
+					}
+					good = !escape && argOK
+				}
+			}
+		}
 		c.Check("R5.3", fmt.Sprintf("ValidateFilterRefs/visit#%d-registers-dependency", n), instrPos(call), good, detail)
 		// the check itself: a reference that names an integration is either rejected with an error or
 		// reported as resolved – never passed over silently (found by a seeded change that reported
